@@ -42,7 +42,7 @@ def draw_line(draw, earlier):
 _n_lines = st.sampled_from([0, 1, 1, 1, 2, 2, 2, 3, 3, 3, 4, 4, 5, 6])
 _bool = st.booleans()
 _final = st.sampled_from([True, True, True, False, False])
-_extra_nl = st.sampled_from([0, 0, 0, 0, 0, 1, 2])
+_extra_nl = st.sampled_from([0, 0, 0, 0, 0, 1, 2, 2, 3])
 _long = st.integers(0, 15)
 
 
@@ -50,6 +50,8 @@ def draw_text(draw, max_lines=6):
     """A text of 0..max_lines lines; the last line with or without "\\n"; sometimes extra empty lines at
     either end (for the strip variants)."""
     n = min(draw(_n_lines), max_lines)
+    if max_lines > 6 and draw(_bool):
+        n = draw(st.integers(5, max_lines))  # (extra draws only for the larger domain of the thorough tier)
     lines = []
     for _ in range(n):
         lines.append(draw_line(draw, lines))
